@@ -2,7 +2,7 @@
 from common import *
 import scripts
 
-THEOREMS = []
+THEOREMS = ['capture_exact', 'capture_one_exact', 'capture_all_exact', 'eoc_counterexample']
 RULE = ("capture bodies reading j <= n values by every accessor family (generic, typed, skip), capture_one, capture_all, in definite / "
         "indefinite / top-level parents at depth <= 3, 3 modes; then Captured::decode, repeated decode_partial, and reading on after the "
         "capture. Oracle computed by the generator: the captured octets are the concatenation of the complete encodings of the values "
@@ -142,5 +142,5 @@ def nontrivial(req, ans):
     return ans.startswith("ok") and " C" in ans and " C- " not in ans
 
 LEVEL = "proof"
-LEVEL_TEXT = "see THEOREMS"
-LEVEL_NOTE = ""
+LEVEL_TEXT = "Lean 4 theorems: for every closure that does not itself open a nested capture, Constructed::capture returns exactly the octets the closure advanced over, decoding continues immediately after them, the enclosing limit is reduced by exactly that amount and an enclosing capture sees them too (capture_exact; capture_one_exact, capture_all_exact). PARTIAL: the clause 'never the end-of-contents marker of the enclosing value' is refuted for the code as it is by a kernel-checked counterexample (eoc_counterexample) - recorded known finding D12. Correspondence + generator oracle: captures of j <= n values by every accessor family in definite/indefinite/top-level/nested parents, later decode / decode_partial, over slice/bytes/stingy/chunked sources."
+LEVEL_NOTE = 'Trusted: Lean 4.33 kernel; axioms propext, Classical.choice, Quot.sound only; the hand-written model (lean/Bcder/Model) tied to /repo on every run by differential correspondence (tools/check.py, harness/, lean/Driver.lean); reference definitions lean/Bcder/Spec. That the octets advanced over are complete value encodings is the frame lemma of C02; nested captures inside a capture body are covered by the correspondence only. D12 is listed in known_findings.json.'
